@@ -305,7 +305,9 @@ class ProjectConfig:
                 path = self.source_path / path
 
             try:
-                text = path.read_text(encoding="utf-8")
+                # A byte-order mark that an editor put in front of the text is not part of
+                # it: it would hide whatever stands at the start of the first line
+                text = path.read_text(encoding="utf-8-sig")
             except UnicodeDecodeError as err:
                 # Lines as read_text() splits them everywhere else: a lone "\r" ends a line too
                 error_line = len(
